@@ -98,7 +98,11 @@ def o_c02(scn, obs, runner, driver):
     for i, r in zip(idx, driver.ask_many(lines)):
         if " rest=0" not in r:
             fails.append(dict(op=i, why="bytes sent during a successful %s do not parse as whole well-formed messages: %s" % (scn["ops"][i]["op"], r[:100])))
-    # failed ops: the peer must still have received a PREFIX of well-formed traffic (parse then a partial message)
+    # whatever the operations' outcomes: on a connection without write-side faults the peer must never have received a complete
+    # frame that is not a well-formed message (wrong magic / unknown command / checksum): bytes were duplicated, lost or reordered
+    for ci, c in enumerate(runner.link.used):
+        if c.sim.malformed is not None and not any(f[0] == "out" for f in c.env.get("faults", [])):
+            fails.append(dict(op=None, why="connection %d: the peer received a frame that is not a well-formed ADB message (header words %r)" % (ci, c.sim.malformed)))
     return fails
 
 
